@@ -12,7 +12,7 @@ MODULE_DEFAULTS = {
     "MC_Infer": {"CheckKnown": "FALSE", "LegacyNull": "FALSE", "MUT_Infer": '"none"'},
     "MC_Resolve": {"DEV_CacheHitNoInfoMerge": "FALSE", "MUT_CacheAfterRefs": "FALSE", "MUT_Resolver": '"none"'},
     "MC_Reps": {"DEV_EqualKindStrict": "FALSE", "DEV_NumberEqualsString": "FALSE", "DEV_JsonNumberIsString": "FALSE", "MUT_ScanLastOnly": "FALSE"},
-    "MC_Pointer": {"DEV_AtoiIndex": "FALSE", "MUT_UnescapeOrder": "FALSE"},
+    "MC_Pointer": {"DEV_AtoiIndex": "FALSE", "MUT_UnescapeOrder": "FALSE", "DEV_NilTarget": "FALSE", "MUT_Pointer": '"none"'},
 }
 
 
@@ -33,8 +33,11 @@ EVAL_INV = ["Wellformed", "Refines", "Emit"]
 EVAL_ASSUME = ["TLC", "pools.py tables (python fractions / re)", "encoding/json decoding of instances",
                "Go regexp on the portable pattern subset"]
 EVAL_RULE = ("universes enumerated exhaustively by TLC from the MC_Eval families %s; a case is one schema document "
-             "(universe) with its L0 verdict vector over the family's instance pool; non-trivial = the vector contains "
-             "both valid and invalid instances; distinct by document text")
+             "(universe) with its L0 verdict vector over the family's instance pool and the L0 reference table (every "
+             "$ref/$dynamicRef of every needed document -> designated subschema, dynamic or not), which the replay compares "
+             "with the real Resolved object by object (hooks VerifRefTarget / VerifDynamicRefInitial); every instance is "
+             "validated as written, with 0 spelled -0, and once more in reverse order on the same Resolved; non-trivial = "
+             "the vector contains both valid and invalid instances; distinct by document text")
 
 
 def eval_jobs(prefix, fams, dr, workers=4):
@@ -108,7 +111,7 @@ def plan_C03(tier, seed):
     # pointer-fragment references (C17's universes are part of "every $ref reaches the designated subschema")
     pc = {"DEV_AtoiIndex": "FALSE", "MUT_UnescapeOrder": "FALSE", "K": 2 if tier == "quick" else 3}
     jobs += [tlc("c03_%s" % f, "MC_Pointer", dict(pc, Family=q(f)), inv, workers=4)
-             for f, inv in (("P1", ["Designated", "Emit"]), ("P2", ["Emit"]))]
+             for f, inv in (("P1", ["Designated", "PointerRefinesP1", "Emit"]), ("P2", ["PointerRefines", "Emit"]))]
     return dict(
         tlc=jobs, parallel=2,
         replay=[dict(name="c03_replay", family="eval", inputs=[j["name"] for j in jobs])],
@@ -183,7 +186,7 @@ def plan_C17(tier, seed):
     k = 2 if tier == "quick" else 4
     c = {"DEV_AtoiIndex": "FALSE", "MUT_UnescapeOrder": "FALSE", "K": k}
     jobs = [tlc("c17_%s" % f, "MC_Pointer", dict(c, Family=q(f)), inv, workers=6)
-            for f, inv in (("P1", ["Designated", "Emit"]), ("P2", ["Emit"]))]
+            for f, inv in (("P1", ["Designated", "PointerRefinesP1", "Emit"]), ("P2", ["PointerRefines", "Emit"]))]
     return dict(
         tlc=jobs, parallel=2,
         replay=[dict(name="c17_replay", family="eval", inputs=[j["name"] for j in jobs])],
@@ -343,7 +346,7 @@ def plan_C10(tier, seed):
     # the malformed-reference and fault universes of the resolver, and represented instances
     jobs += res_jobs("c10", [("R2", 1)])
     jobs += eval_jobs("c10", [("G3", 1)], "d7") + eval_jobs("c10", [("F5", 1), ("DUP", 1)], "2020")
-    jobs += [tlc("c10_P2", "MC_Pointer", {"DEV_AtoiIndex": "FALSE", "MUT_UnescapeOrder": "FALSE", "K": 2, "Family": q("P2")}, ["Emit"], workers=2)]
+    jobs += [tlc("c10_P2", "MC_Pointer", {"DEV_AtoiIndex": "FALSE", "MUT_UnescapeOrder": "FALSE", "K": 2, "Family": q("P2")}, ["PointerRefines", "Emit"], workers=2)]
     rep = rep_job("c10", "RV", 1, [], workers=6)
     # For / ForType on every type universe of MC_Infer (incl. recursive and unsupported types, all ForOptions)
     inf = [tlc("c10_infer_%s" % f, "MC_Infer", {"Family": q(f), "K": 1 if q_ else 2, "CheckKnown": "FALSE", "LegacyNull": "FALSE"},
